@@ -85,9 +85,11 @@ func (s *OutlineServer) loadConfig(filename string) error {
 	if err != nil {
 		return err
 	}
+	vreload("started")
 	if err := s.Stop(); err != nil {
 		slog.Warn("Failed to stop old config.", "err", err)
 	}
+	vreload("stopped")
 	s.stopConfig = stopConfig
 	return nil
 }
